@@ -374,6 +374,31 @@ pub fn check_main(args: CheckArgs) -> i32 {
     }
     let mut violations_reported = 0;
     let mut known_reported = 0;
+    // total minimisation budget per check: with many classes at once (a
+    // broken exit status touches everything) the later ones are verified and
+    // reported unminimised
+    let mut min_budget_left: f64 = if a.tier == "quick" { 90.0 } else { 600.0 };
+
+    // ---- regression inputs: replay files of repaired defects; a fixed entry
+    // suppresses nothing, so if one of them reproduces it is a violation
+    let mut regressions_replayed = 0u64;
+    if let Ok(rd) = std::fs::read_dir(format!("{}/findings", a.verif)) {
+        let mut files: Vec<std::path::PathBuf> = rd.filter_map(|e| e.ok()).map(|e| e.path()).filter(|p| p.file_name().map(|n| n.to_string_lossy().starts_with(&format!("{}-", a.prop))).unwrap_or(false)).collect();
+        files.sort();
+        for f in files {
+            if let Ok(txt) = std::fs::read_to_string(&f) {
+                if let Ok(r) = serde_json::from_str::<Replay>(&txt) {
+                    regressions_replayed += 1;
+                    let got = minimize::classify_full(&r, &tmpdir, "reg");
+                    if let Some(v) = got.iter().find(|v| v.class == r.violation.class) {
+                        println!("# repaired defect is back ({}): {}", v.class, truncate(&v.detail, 300));
+                        println!("VIOLATION property={} replay={}", a.prop, f.to_string_lossy());
+                        violations_reported += 1;
+                    }
+                }
+            }
+        }
+    }
     let total_violation_count: usize = by_class.values().map(|v| v.len()).sum();
     for (class, list) in &by_class {
         let first = &list[0];
@@ -383,8 +408,10 @@ pub fn check_main(args: CheckArgs) -> i32 {
             continue;
         }
         // confirm in a fresh process, then minimise
-        let budget = if a.tier == "quick" { 20.0 } else { 60.0 };
+        let budget = (if a.tier == "quick" { 20.0f64 } else { 60.0 }).min(min_budget_left.max(0.0));
+        let tm = real_now();
         let (min, verified) = minimize::minimise_and_verify(first, &tmpdir, budget);
+        min_budget_left -= real_now() - tm;
         match verified {
             minimize::Verified::Reproduced => {
                 let dg = crate::prng::hex128(crate::prng::digest128(serde_json::to_string(&min.plan).unwrap().as_bytes()));
@@ -449,6 +476,7 @@ pub fn check_main(args: CheckArgs) -> i32 {
             "violation_occurrences": total_violation_count,
             "violation_classes": by_class.keys().cloned().collect::<Vec<_>>(),
             "known_findings_met": known_reported,
+            "regression_replays": regressions_replayed,
             "harness_errors": agg.harness_errors.clone(),
             "real_vs_stub": crate::real_vs_stub(),
         },
